@@ -784,58 +784,63 @@ class Serialization:
             tree: Iterable[SubtypeTree],
         ) -> Tuple[Tuple[SubtypeTree, ...], Sequence[None]]:
             tree = list(tree)
-            # It is an error to parse nothing
-            if len(tokens) == 0:
-                raise TypeNameError(type_name)
-            first_token, *tail = tokens
-
-            # The first token should be a name
-            if first_token in {"<", ">", ","}:
-                raise TypeNameError(type_name)
-
-            # Base case
-            if len(tail) == 0:
-                tree.append(SubtypeTree(first_token, ()))
-                return tuple(tree), []
-            next_token, *tail = tail
-
-            # No subtypes
-            if next_token == ",":
-                tree.append(SubtypeTree(first_token, ()))
-
-            # Parse subtypes
-            if next_token == "<":
-                # Extract just the subtype tokens and parse them
-                stack = ["<"]
-                subtype_tokens = list()
-                remaining_tokens = list()
-                for t in tail:
-                    if len(stack) == 0:
-                        remaining_tokens.append(t)
-                        continue
-                    if t == "<":
-                        stack.append(t)
-                    elif t == ">":
-                        stack.pop()
-                    subtype_tokens.append(t)
-                if len(stack) > 0 or subtype_tokens[-1] != ">":
+            # The siblings of one level ("a,b,c") are parsed in a loop, one
+            # round per sibling: a name with many parameters must not need
+            # a stack frame for each of them.
+            while True:
+                # It is an error to parse nothing
+                if len(tokens) == 0:
                     raise TypeNameError(type_name)
-                subtypes, remaining = parse(subtype_tokens[:-1], [])
-                # Parsing should consume all subtype tokens
-                if len(remaining) != 0:
+                first_token, *tail = tokens
+
+                # The first token should be a name
+                if first_token in {"<", ">", ","}:
                     raise TypeNameError(type_name)
-                tree.append(SubtypeTree(first_token, subtypes))
-                # Finish if all tokens are consumed
-                if len(remaining_tokens) == 0:
+
+                # Base case
+                if len(tail) == 0:
+                    tree.append(SubtypeTree(first_token, ()))
                     return tuple(tree), []
-                next_token, *tail = remaining_tokens
+                next_token, *tail = tail
 
-            # If the next token is a comma, parse next
-            if next_token == ",":
-                return parse(tail, tree)
+                # No subtypes
+                if next_token == ",":
+                    tree.append(SubtypeTree(first_token, ()))
 
-            # None of the rules match, error
-            raise TypeNameError(type_name)
+                # Parse subtypes
+                if next_token == "<":
+                    # Extract just the subtype tokens and parse them
+                    stack = ["<"]
+                    subtype_tokens = list()
+                    remaining_tokens = list()
+                    for t in tail:
+                        if len(stack) == 0:
+                            remaining_tokens.append(t)
+                            continue
+                        if t == "<":
+                            stack.append(t)
+                        elif t == ">":
+                            stack.pop()
+                        subtype_tokens.append(t)
+                    if len(stack) > 0 or subtype_tokens[-1] != ">":
+                        raise TypeNameError(type_name)
+                    subtypes, remaining = parse(subtype_tokens[:-1], [])
+                    # Parsing should consume all subtype tokens
+                    if len(remaining) != 0:
+                        raise TypeNameError(type_name)
+                    tree.append(SubtypeTree(first_token, subtypes))
+                    # Finish if all tokens are consumed
+                    if len(remaining_tokens) == 0:
+                        return tuple(tree), []
+                    next_token, *tail = remaining_tokens
+
+                # If the next token is a comma, parse the next sibling
+                if next_token == ",":
+                    tokens = tail
+                    continue
+
+                # None of the rules match, error
+                raise TypeNameError(type_name)
 
         # There should only be one item at the root of the tree
         try:
